@@ -74,7 +74,9 @@ def cases():
             return "t"
     en = E.taxpayer_or_spouse
     raws = [None, "", "   ", "\t\n", 0, 1, -3, True, False, 0.0, 1.0, 2.675, 0.125, 1.005, -0.004999, 1e-9, 123456.789012, 1 / 3.0, 1e15 + 0.3, "x", " padded ", "12", 12.0,
-            MyInt(5), MyFloat(2.5), MyStr("s"), MyStr("  "), [1], (2,), {"a": 1}, en.taxpayer, en.spouse, E.filing_status.Single, b"bytes", 3 + 0j, float("nan"), float("inf")]
+            MyInt(5), MyFloat(2.5), MyStr("s"), MyStr("  "), [1], (2,), {"a": 1}, en.taxpayer, en.spouse, E.filing_status.Single, b"bytes", 3 + 0j, float("nan"), float("inf"),
+            # texts that NAME an option or equal an option's own value (its description): still not the option itself
+            en.taxpayer.name, en.spouse.value, str(en.taxpayer)]
     decls = [("StringField", None), ("BooleanField", None), ("IntegerField", None), ("FloatField", 0), ("FloatField", 2), ("FloatField", 5), ("EnumField", None)]
     out = []
     for via, decl, places, raw in [(via, d, p, r) for via in ("field", "solver") for (d, p) in decls for r in raws]:
